@@ -5,7 +5,7 @@ from oracle_util import *  # noqa
 from tokutil import *  # noqa
 
 ID = "C01"
-LEAN_MODULE = ["SCoda.Props.C01", "SCoda.Props.C01b", "SCoda.Props.C01Glue", "SCoda.Props.C02"]
+LEAN_MODULE = ["SCoda.Props.C01", "SCoda.Props.C01b", "SCoda.Props.C01Glue", "SCoda.Props.C02", "SCoda.Props.C01c"]
 LEVEL = "proof"
 CLAUSES = [
     ("every token tokenise emits is in the vocabulary, and decode(encode(tokens)) = tokens",
@@ -24,6 +24,18 @@ CLAUSES = [
     ("total duration rounded up to the end of the last bar: after a call the clock stands on a bar line, every bar end is at most the final clock, and "
      "outside the tail class every emission ends by the final clock, which is the last bar end emitted (partial: known finding D15, refuted in general by a kernel-checked example)",
      ["SCoda.C01.duration_partial", "SCoda.C01.specLog_on_barline", "SCoda.C01.specLog_barEnds_le", "SCoda.C01.duration_false_with_tail"]),
+
+    ("the PIECE's notes, independently of the implementation (audit A4): for tracks satisfying the input-level, decidable `ValidCore` (legal relative views, well-formed, notes "
+     "of positive length on the grid with pitch in range, duration among the note values and a velocity bin above; signatures on the grid and expressible in eighths; track "
+     "lengths on the grid), the events the merge/pairing glue hands to the tokeniser are exactly the tracks' notes read by the independent `notesOf`, each once, onset-sorted; "
+     "tokenisation succeeds from the initial state; detokenise succeeds with one sequence per track and sequence i holds a permutation of track i's notes with channel 0 and "
+     "the velocity replaced by the smallest bin value at or above it (defined without the tokeniser's lookup)",
+     ["SCoda.C01c.extract_notes", "SCoda.C01c.valid_tracks_evs", "SCoda.C01c.valid_tracks_evsOk", "SCoda.C01c.tokenise_succeeds_tracks", "SCoda.C01c.roundtrip_notes",
+      "SCoda.C01c.roundtrip_notes_single", "SCoda.C01c.roundtrip_piece"]),
+    ("duration (audit A5): with signatures placed on bar boundaries of the grid they induce (input-level `SigPlacement`) and outside the input-level tail class `HasTail` (the "
+     "piece does not end in a rest and its end lies beyond the bar of the last onset), every detokenised sequence lasts exactly `lastBarEnd`: the piece length rounded up on "
+     "the grid built from the signature changes alone; without the tail exclusion refuted (known finding D15)",
+     ["SCoda.C01c.duration_no_tail", "SCoda.C01c.duration_piece", "SCoda.C01c.duration_statement_false"]),
 ]
 RULE = ("valid multi-track pieces (1-3 tracks, 1-5 bars, <=3 notes per bar and track, signature changes on bar lines, rests "
         "crossing bar lines, simultaneous notes across tracks) x configurations (all 16 flag combinations sampled, velocity "
@@ -106,8 +118,12 @@ def setup(ctx):
         return f["clause"] in ("bar-grid", "duration") and has_tail([[tuple(m) for m in t] for t in f["input"]["tracks"]])
 
     def kf_d16(f):
+        # exactly what fails on the unchanged tree: the top bin lies below 127 and a louder note makes tokenise raise IndexError.
+        # (Bins that merely repeat 127 do not disturb the round trip: a duplicate key is overwritten and both ids decode to it —
+        # any round-trip failure there is NOT this finding.)
         bins = list(P.TkCfg(**f["input"]["cfg"]).tk().velocity_bins)
-        return d16_bins(bins) and f["clause"] in ("tokenise-raises", "closed", "encode-raises", "decode-encode", "notes")
+        loud = any(m[0] == ON and (m[4] or 0) > max(bins) for t in f["input"]["tracks"] for m in t)
+        return d16_bins(bins) and max(bins) < 127 and loud and f["clause"] == "tokenise-raises" and "IndexError" in f["detail"]
     ctx.kf_predicates["D15"] = kf_d15
     ctx.kf_predicates["D16"] = kf_d16
 
@@ -121,7 +137,7 @@ D16_EXAMPLE = {"cfg": dict(num_tracks=1, velocity_bins=20), "tracks": [[G.pm(ON,
 
 def cfg_kwargs(rng, n_tracks, thorough):
     flags = [rng.random() < 0.5 for _ in range(5)]
-    bins = rng.choice([1, 1, 2, 3, 4, 5, 8, 12, 16] if not thorough else [1, 2, 3, 4, 5, 6, 7, 8, 9, 10, 11, 12, 13, 14, 16, 18, 21])
+    bins = rng.choice([1, 1, 2, 3, 4, 5, 8, 12, 16, 19, 22] if not thorough else [1, 2, 3, 4, 5, 6, 7, 8, 9, 10, 11, 12, 13, 14, 16, 18, 19, 21, 22, 23, 26])
     return dict(num_tracks=n_tracks, velocity_bins=bins, running=flags[0], fuse_track=flags[1], fuse_value=flags[2],
                 fuse_velocity=flags[3], simplify_ts=flags[4], pitch_range=rng.choice([(21, 108), (0, 127), (21, 108)]))
 
